@@ -112,6 +112,46 @@ theorem lxRun_length (n : Nat) (m : LX) : (lxRun n m).length = n := by
   | zero => rfl
   | succ n ih => simp [lxRun, ih]
 
+/-- the events the machine delivers at tick number `τ` (the `τ+1`-st call of `play_tick`) -/
+def lxEvents (m0 : LX) (τ : Nat) : List Event := (lxTick (lxAfter τ m0)).2
+
+theorem lxAfter_succ (T : Nat) (m0 : LX) : lxAfter (T + 1) m0 = (lxTick (lxAfter T m0)).1 := by
+  rw [lxAfter_add]; rfl
+
+theorem lxRun_after (n T : Nat) (m0 : LX) :
+    lxRun n (lxAfter T m0) = (List.range n).map fun i => lxEvents m0 (T + i) := by
+  induction n generalizing T with
+  | zero => rfl
+  | succ n ih =>
+    simp only [lxRun]
+    rw [← lxAfter_succ, ih (T + 1), List.range_succ_eq_map]
+    simp only [List.map_cons, List.map_map, lxEvents, Nat.add_zero]
+    congr 1
+    apply List.map_congr_left
+    intro i _
+    simp only [Function.comp]
+    congr 3
+    omega
+
+/-- an event is delivered in the ticks `T … T+n−1` -/
+theorem mem_lxRun_after (n T : Nat) (m0 : LX) (e : Event) :
+    e ∈ (lxRun n (lxAfter T m0)).flatten ↔ ∃ τ, T ≤ τ ∧ τ < T + n ∧ e ∈ lxEvents m0 τ := by
+  rw [lxRun_after]
+  simp only [List.mem_flatten, List.mem_map, List.mem_range]
+  constructor
+  · rintro ⟨l, ⟨i, hi, rfl⟩, he⟩
+    exact ⟨T + i, by omega, by omega, he⟩
+  · rintro ⟨τ, h1, h2, he⟩
+    exact ⟨_, ⟨τ - T, by omega, rfl⟩, by rw [show T + (τ - T) = τ by omega]; exact he⟩
+
+/-- a machine that has stopped delivers nothing -/
+theorem lxRun_disabled (n : Nat) (m : LX) (h : m.enabled = false) : (lxRun n m).flatten = [] := by
+  induction n with
+  | zero => rfl
+  | succ n ih =>
+    have : lxTick m = (m, []) := by simp [lxTick, h]
+    simp [lxRun, this, ih]
+
 section
 variable (song : Song) (root : List Event)
 
@@ -779,6 +819,83 @@ theorem segTop_one_segno (hne : SongNoEnd song) (pre post : List Event) (sg : Ev
     segTop_segno song root pre post sg hroot hsg (by simpa using h3)
   have := segTop_segment song root hne [] pre (sg :: post) (by simp [hroot]) hpreE ip hpre hnp (by simpa using h2)
   simpa using this
+
+/-! ### conditions on all tracks, from conditions on the lists of events -/
+theorem lookup_mem {β : Type} : ∀ (l : List (Nat × β)) (n : Nat) (v : β), l.lookup n = some v → (n, v) ∈ l
+  | [], _, _, h => by simp at h
+  | (a, b) :: r, n, v, h => by
+    simp only [List.lookup] at h
+    split at h
+    · rename_i heq
+      simp only [beq_iff_eq] at heq
+      cases h; subst heq; simp
+    · exact List.mem_cons_of_mem _ (lookup_mem r n v h)
+
+theorem mem_codeOf (tr : TRef) (e : Event) (h : e ∈ codeOf song root tr) :
+    e ∈ root ∨ ∃ t ∈ song.tracks, e ∈ t.2 := by
+  cases tr with
+  | root => exact Or.inl h
+  | id n =>
+    simp only [codeOf, Song.track?] at h
+    cases hl : song.tracks.lookup n with
+    | none => rw [hl] at h; simp at h
+    | some evs =>
+      rw [hl] at h
+      exact Or.inr ⟨(n, evs), lookup_mem _ _ _ hl, h⟩
+
+/-- every event of the channel's track and of every track of the song -/
+def allEvents : List Event := root ++ song.tracks.flatMap (·.2)
+
+theorem of_allEvents (P : Event → Prop) (h : ∀ e ∈ allEvents song root, P e) :
+    ∀ tr e, e ∈ codeOf song root tr → P e := by
+  intro tr e he
+  rcases mem_codeOf song root tr e he with h1 | ⟨t, ht, h2⟩
+  · exact h e (by simp [allEvents, h1])
+  · exact h e (by simp only [allEvents, List.mem_append, List.mem_flatMap]; exact Or.inr ⟨t, ht, h2⟩)
+
+theorem songNoEnd_of_all (h : ∀ e ∈ allEvents song root, e.kind ≠ .fin) : SongNoEnd song ∧ NoEnd root := by
+  constructor
+  · intro id evs hid e he
+    have : e ∈ codeOf song root (.id id) := by simp [codeOf, hid, he]
+    exact of_allEvents song root (fun e => e.kind ≠ .fin) h _ e this
+  · intro e he
+    exact h e (by simp [allEvents, he])
+
+/-- past the end of the channel's track the control machine only moves on -/
+theorem steps_past_end : ∀ (j p : Nat), root.length ≤ p →
+    stepsCore song root j ⟨.root, p, []⟩ = .ok (⟨.root, p + j, []⟩, List.replicate j (.rootEnd endEvent))
+  | 0, _, _ => rfl
+  | j + 1, p, hp => by
+    have hk : endEvent.kind = .fin := by decide
+    have hnone : root[p]? = none := by simp [hp]
+    have hs : coreStep song root ⟨.root, p, []⟩ = .ok (⟨.root, p + 1, []⟩, .rootEnd endEvent) := by
+      simp [coreStep, fetch, codeOf, hnone, hk]
+    simp only [stepsCore, hs, steps_past_end j (p + 1) (by omega), List.replicate_succ]
+    congr 3; omega
+
+/-- the end of the track is reached after one number of steps only -/
+theorem run_length_unique (k k' : Nat) (c : Core) (outs outs' : List Out)
+    (h : stepsCore song root k c = .ok (⟨.root, root.length, []⟩, outs))
+    (h' : stepsCore song root k' c = .ok (⟨.root, root.length, []⟩, outs')) : k = k' := by
+  have key : ∀ a b (oa ob : List Out), a < b → stepsCore song root a c = .ok (⟨.root, root.length, []⟩, oa) →
+      stepsCore song root b c = .ok (⟨.root, root.length, []⟩, ob) → False := by
+    intro a b oa ob hab ha hb
+    obtain ⟨j, rfl⟩ : ∃ j, b = a + (j + 1) := ⟨b - a - 1, by omega⟩
+    rw [stepsCore_add, ha] at hb
+    simp only [steps_past_end song root (j + 1) root.length (Nat.le_refl _)] at hb
+    simp only [Except.ok.injEq, Prod.mk.injEq, Core.mk.injEq] at hb
+    omega
+  rcases Nat.lt_trichotomy k k' with h1 | h1 | h1
+  · exact (key k k' outs outs' h1 h h').elim
+  · exact h1
+  · exact (key k' k outs' outs h1 h' h).elim
+
+/-- the step budget: one concrete run to the end of the track bounds them all -/
+theorem fuel_of_run (k0 : Nat) (outs0 : List Out) (F : Nat)
+    (h0 : stepsCore song root k0 ⟨.root, 0, []⟩ = .ok (⟨.root, root.length, []⟩, outs0)) (hk : 2 * k0 + 2 ≤ F) :
+    ∀ k outs, stepsCore song root k ⟨.root, 0, []⟩ = .ok (⟨.root, root.length, []⟩, outs) → 2 * k + 2 ≤ F := by
+  intro k outs h
+  rw [run_length_unique song root k k0 _ outs outs0 h h0]; exact hk
 
 end
 end Ctrmml.TickStream
